@@ -99,3 +99,32 @@ fn rac_number_suffix_rule() {
     }
     println!("RAC-OK number_suffix_rule cases={} nontrivial={} bound=221-integers-x-16-suffix-variants-x-8-positions+2-ordinals-per-text", cases, nontrivial);
 }
+
+// ---- single-shape probes (own obligations, see known_findings.txt): an ordinal directly followed by a possessive 's, and an
+// ordinal inside square brackets. The rule must report exactly the listed spans. ----
+fn rac_c17_probe(name: &str, cases: &[(&str, &[(usize, usize)])]) {
+    let mut failing = vec![];
+    for (text, want) in cases {
+        let got = std::panic::catch_unwind(|| {
+            let doc = Document::new_plain_english_curated(text);
+            let mut g: Vec<(usize, usize)> = CorrectNumberSuffix.lint(&doc).iter().map(|l| (l.span.start, l.span.end)).collect();
+            g.sort();
+            g
+        });
+        let ok = matches!(&got, Ok(g) if g == &want.to_vec());
+        if !ok { failing.push(format!("{{\"text\": {:?}, \"expected_lint_spans\": {:?}, \"got\": {:?}}}", text, want, got.ok())); }
+    }
+    if !failing.is_empty() {
+        println!("RAC-CEX {} [{}]", name, failing.join(", "));
+        panic!("number suffix rule contract violated");
+    }
+    println!("RAC-OK {} cases={} nontrivial={} bound={}-fixed-text(s)", name, cases.len(), cases.len(), cases.len());
+}
+#[test]
+fn rac_c17_possessive() {
+    rac_c17_probe("c17_possessive", &[("The 2st's turn.", &[(5, 7)]), ("The 2st\u{2019}s turn.", &[(5, 7)]), ("The 2nd's turn.", &[])]);
+}
+#[test]
+fn rac_c17_bracketed() {
+    rac_c17_probe("c17_bracketed", &[("See [2st] here.", &[(6, 8)]), ("See [11st] here.", &[(7, 9)]), ("See [2nd] here.", &[])]);
+}
